@@ -106,15 +106,19 @@ structure Out where
   deriving Repr, DecidableEq
 
 /-- `_named_objs(objlist, namesdict)` for integer objects: the name recorded for
-the object in `namesdict` (the *last* key holding it) else `str(obj)` (= `Int.repr`);
+the object in `namesdict` (the *last* key holding it) else `str(obj)` (a parameter of the model);
 `objs[k] = obj` on an ordered dict. -/
-def nameOf (names : Dict) (o : Obj) : Key :=
+def nameOf (str : Obj → Key) (names : Dict) (o : Obj) : Key :=
   match (names.reverse.find? (fun kv => kv.2 = o)) with
   | some kv => kv.1
-  | none => Int.repr o
+  | none => str o
 
-def namedObjs (objs : List Obj) (names : Dict) : Dict :=
-  objs.foldl (fun d o => Dict.set d (nameOf names o) o) []
+def namedObjs (str : Obj → Key) (objs : List Obj) (names : Dict) : Dict :=
+  objs.foldl (fun d o => Dict.set d (nameOf str names o) o) []
+
+/-- Python's `str` on the objects of the driver's universe (an integer, with 0 standing for `None`).
+The theorems only assume that `str` is injective on objects; this instance is what the driver uses. -/
+def pyStr (o : Obj) : Key := if o = 0 then "None" else Int.repr o
 
 def payloadOld (s : St) : Payload :=       -- `dict(names) or list(_objects)`
   if s.names ≠ [] then .dct s.names else .lst s.objs
@@ -131,29 +135,29 @@ def setKeyCore (s : St) (k : Key) (o : Obj) : Except Err St :=
   | none => .ok { s with objs := s.objs ++ [o], names := Dict.set s.names k o }
 
 /-- `if self and not names: names = _named_objs(self)` -/
-def convertNames (s : St) : St :=
-  if s.objs ≠ [] ∧ s.names = [] then { s with names := namedObjs s.objs [] } else s
+def convertNames (str : Obj → Key) (s : St) : St :=
+  if s.objs ≠ [] ∧ s.names = [] then { s with names := namedObjs str s.objs [] } else s
 
-def updateCore : St → List (Key × Obj) → St × Option Err
+def updateCore (str : Obj → Key) : St → List (Key × Obj) → St × Option Err
   | s, [] => (s, none)
   | s, (k, o) :: kvs =>
     -- nested `__setitem__(k, v, trigger=False)`: its own conversion test runs again;
     -- an exception leaves the pairs applied so far in place
-    match setKeyCore (convertNames s) k o with
-    | .ok s' => updateCore s' kvs
-    | .error e => (convertNames s, some e)
+    match setKeyCore (convertNames str s) k o with
+    | .ok s' => updateCore str s' kvs
+    | .error e => (convertNames str s, some e)
 
 /-- One call on the Parameter, as written.  On an error the state is the one
 reached when the exception was raised and no notification is sent (`_trigger`
 has no `finally`). -/
-def step (s : St) : Op → St × Out
+def step (str : Obj → Key) (s : St) : Op → St × Out
   | .setIdx i o =>
     match normIdx s.objs.length i with
     | some n => let s' := { s with objs := s.objs.set n o }
                 (s', { notifs := [(payloadOld s, payloadNew s')] })
     | none => (s, { err := some .indexError })
   | .setKey k o =>
-    let s0 := convertNames s
+    let s0 := convertNames str s
     match setKeyCore s0 k o with
     | .ok s' => (s', { notifs := [(payloadOld s0, payloadNew s')] })
     | .error e => (s0, { err := some e })
@@ -167,8 +171,8 @@ def step (s : St) : Op → St × Out
     let s' := { s with objs := s.objs ++ os }
     (s', { notifs := [(payloadOld s, payloadNew s')] })
   | .update kvs =>
-    let s0 := if s.names = [] then { s with names := namedObjs s.objs [] } else s
-    match updateCore s0 kvs with
+    let s0 := if s.names = [] then { s with names := namedObjs str s.objs [] } else s
+    match updateCore str s0 kvs with
     | (s', none) => (s', { notifs := [(payloadOld s0, payloadNew s')] })
     | (s', some e) => (s', { err := some e })
   | .popIdx i =>
@@ -213,17 +217,17 @@ def step (s : St) : Op → St × Out
       -- `_ensure_value_is_in_objects`: appended to `_objects` only, silently
       if v ∈ s.objs then (s, {}) else ({ s with objs := s.objs ++ [v] }, {})
 
-def run (s : St) (ops : List Op) : St := ops.foldl (fun s op => (step s op).1) s
+def run (str : Obj → Key) (s : St) (ops : List Op) : St := ops.foldl (fun s op => (step str s op).1) s
 
 /-! ### The four views the property speaks about -/
 
 /-- `list(p.objects)` -/
 def listView (s : St) : List Obj := s.objs
 /-- `p.objects.items()` -/
-def itemsView (s : St) : Dict :=
-  if s.names ≠ [] then s.names else namedObjs s.objs []
+def itemsView (str : Obj → Key) (s : St) : Dict :=
+  if s.names ≠ [] then s.names else namedObjs str s.objs []
 /-- `p.get_range()` -/
-def rangeView (s : St) : Dict := namedObjs s.objs s.names
+def rangeView (str : Obj → Key) (s : St) : Dict := namedObjs str s.objs s.names
 /-- does `obj.p = v` succeed (with `check_on_set`) -/
 def accepts (s : St) (v : Obj) : Bool := decide (v ∈ s.objs)
 
